@@ -14,6 +14,8 @@ DEVS = [
     {"dev": {"k": "omit_pred"}, "target": "c0"},
     {"dev": {"k": "disc_pad_oob_first"}, "need_disclosed": 1},
     {"dev": {"k": "disc_reverse"}, "need_disclosed": 2},
+    {"dev": {"k": "reported_reorder"}, "need_disclosed": 2},
+    {"dev": {"k": "reported_reorder"}, "need_disclosed": 3},
     {"dev": {"k": "disc_dup"}, "need_disclosed": 1},
     {"dev": {"k": "disc_withhold"}, "need_disclosed": 1},
     {"dev": {"k": "inner_id_other", "other": "zz"}},
